@@ -2,7 +2,7 @@
    Statements only; proofs in Proofs/MappingFacts.v (model: Mapping::insert_impl / merge) and
    Proofs/DeepMergeFacts.v (specification Spec/DeepMerge.v, the oracle of the correspondence run). *)
 From RV Require Import Model.Mapping Model.Yaml Model.Interp Model.Run Spec.DeepMerge Proofs.MappingFacts Proofs.DeepMergeFacts
-     Proofs.Refinement.
+     Proofs.Refinement Proofs.SemiClean Proofs.Twin Proofs.Unrender Proofs.Inline Proofs.TwinStack.
 
 (** A present constant key rejects every later write -- any value, any marker, forced or not --
     with an error naming the key; the mapping is not modified (the result is an error). *)
@@ -84,3 +84,44 @@ Example C09_nested_constant_nonvacuous :
   let l2 := YMap [(YStr "a", YMap [(YStr "b", YMap [(YStr "c", YNum (NInt 2))])])] in
   Forall layer_ok [l1; l2] /\ deep_merge 6 [l1; l2] = SErr (SConst (VStr "c")).
 Proof. cbn zeta. split; [prove_layer_ok | vm_compute; reflexivity]. Qed.
+
+(** "... directly or through a merged reference" (through C04, Proofs/TwinStack.v): for a stack
+    whose layers contain references, write the stack with every reference replaced by the YAML of
+    what it renders to -- a constant key of a referenced mapping is spelled `=k` there.  If that
+    inlined stack violates a constant in the specification, the stack with the references renders
+    to no value at all: a constant delivered by a reference is never silently altered. *)
+Theorem C09_constant_delivered_by_a_reference_is_never_silently_altered :
+  forall f F ys ys' m k,
+    Forall sclean_layer ys -> ys' <> [] -> Forall layer_ok ys' ->
+    merge_layers_try ys = Ok m -> Forall2 (ytw m) ys ys' ->
+    deep_merge (S f) ys' = SErr (SConst k) ->
+    forall r, render_with_self F (VMap m) <> Ok r.
+Proof.
+  intros f F ys ys' m k Hs Hne Hl Hm Ht Hd r Hr.
+  pose proof (stack_with_references_is_the_deep_merge_of_its_inlined_twin f F ys ys' m r Hs Hne Hl Hm Ht Hr) as H.
+  now rewrite Hd in H.
+Qed.
+Eval cbv in "ASSUMPTIONS-OF C09_constant_delivered_by_a_reference_is_never_silently_altered"%string. Print Assumptions C09_constant_delivered_by_a_reference_is_never_silently_altered.
+
+(** non-vacuity: `target` receives the referenced template {=b: frozen}; a later layer writes b *)
+Example C09_delivered_constant_nonvacuous :
+  let l1 := YMap [(YStr "tmpl", YMap [(YStr "=b", YStr "frozen")])] in
+  let l3 := YMap [(YStr "target", YMap [(YStr "b", YStr "changed")])] in
+  let ys := [l1; YMap [(YStr "target", YStr "${tmpl}")]; l3] in
+  let ys' := [l1; YMap [(YStr "target", YMap [(YStr "=b", YStr "frozen")])]; l3] in
+  Forall sclean_layer ys /\ Forall layer_ok ys' /\
+  exists m, merge_layers_try ys = Ok m /\ Forall2 (ytw m) ys ys' /\
+            deep_merge 10 ys' = SErr (SConst (VStr "b")) /\
+            render_with_self 60 (VMap m) = Err (EResolving (EConst (VStr "b"))).
+Proof.
+  cbn zeta. split; [eapply Forall_impl; [intros y0; apply clean_layer_sclean | prove_layer_ok]|]. split; [prove_layer_ok|].
+  eexists. split; [vm_compute; reflexivity|]. split.
+  - constructor; [apply ytw_refl|]. constructor; [|constructor; [apply ytw_refl | constructor]].
+    apply ytw_map_iff. eexists. split; [reflexivity|]. constructor; [|constructor]. split; [reflexivity|]. cbn [snd].
+    right. eexists. eexists. split; [vm_compute; reflexivity|]. split.
+    + eapply (denotes_of_render _ _ "${tmpl}" 40 st0). vm_compute. reflexivity.
+    + apply lw_map_iff. eexists. split; [reflexivity|]. constructor; [|constructor].
+      unfold lwe. cbn [e_key e_val e_const e_over fst snd]. repeat split. right. split; reflexivity.
+  - split; vm_compute; reflexivity.
+  Unshelve. cbn. repeat split; repeat constructor; cbn; intuition discriminate.
+Qed.
